@@ -52,10 +52,12 @@ TNext(Upd(_, _)) == Consume(Upd) \/ Finish
 
 \* Stateless (pure) calls are executed a second time from several goroutines at once; the harness compares each
 \* result with the one recorded sequentially and reports the count.  A pure function of its arguments gives the
-\* same answer whatever else runs at the same time (hidden shared scratch state does not).
+\* same answer whatever else runs at the same time and whatever ran before (hidden shared scratch state, "last
+\* value" hints and pooled buffers do not): the calls are replayed (a) sequentially in other orders (workers = 1)
+\* and (b) from 8 goroutines at once.
 ConcurrentReplayVerdict(e) ==
   IF e.mismatches = 0 THEN <<>>
-  ELSE <<"result-differs-under-concurrent-use", e.first.sequential, e.first.concurrent>>
+  ELSE <<IF e.workers = 1 THEN "result-depends-on-earlier-calls" ELSE "result-differs-under-concurrent-use", e.first.sequential, e.first.concurrent>>
 
 \* the event consumed by the step that led to the current state
 Judge(Verdict(_, _, _)) ==
